@@ -14,7 +14,8 @@
 (* annotation).                                                            *)
 (***************************************************************************)
 EXTENDS Naturals, Sequences, FiniteSets, TLC, Json
-CONSTANTS MaxDepth
+CONSTANTS MaxDepth,
+          Via          \* "capture": the value is captured by the task (C08); "send": it is sent to the task over a channel (C09)
 
 Wrappers == {"arr", "tup", "rec", "opt", "box", "clo"}
 Sides == {"task", "main", "both"}
@@ -95,7 +96,19 @@ ArrS(s) == "[ " \o Commas(s) \o " ]"
 Final(who, side) == IF who = "both" \/ who = side THEN <<1, IF side = "task" THEN 3 ELSE 4>> ELSE <<1>>
 
 Indent(ls) == [i \in 1..Len(ls) |-> "  " \o ls[i]]
-Text(p, who) == JoinL(
+\* the same experiment with the value sent over a channel: the reader's copy is independent of the writer's value
+HasClo(p) == \E i \in 1..Len(p) : p[i] = "clo"
+TextSend(p, who) == JoinL(
+  Decls(p) \o
+  <<"let go: channel<int> = channel()", "let res: channel<string> = channel()",
+    "let data: channel<" \o TypeOf(p) \o "> = channel()">> \o Hidden(p, 1) \o
+  <<"let x = " \o ValueE(p, 1)>> \o
+  <<"task {", "  let y = data.read()", "  let g = go.read()">> \o
+  (IF who \in {"task", "both"} THEN Indent(Mut(p, "y", 3, "t", 1)) ELSE <<>>) \o
+  <<"  res.write(" \o ObsE(p, "y", "s", 1) \o ")", "}", "data.write(x)">> \o
+  (IF who \in {"main", "both"} THEN Mut(p, "x", 4, "m", 1) ELSE <<>>) \o
+  <<"go.write(1)", "let r = res.read()", "println(\"main \" .. " \o ObsE(p, "x", "n", 1) \o ")", "println(\"task \" .. r)">>)
+Text(p, who) == IF Via = "send" THEN TextSend(p, who) ELSE JoinL(
   Decls(p) \o
   <<"let go: channel<int> = channel()", "let res: channel<string> = channel()">> \o Hidden(p, 1) \o
   <<"let x = " \o ValueE(p, 1)>> \o
@@ -106,9 +119,9 @@ Text(p, who) == JoinL(
   <<"go.write(1)", "let r = res.read()", "println(\"main \" .. " \o ObsE(p, "x", "n", 1) \o ")", "println(\"task \" .. r)">>)
 
 VARIABLES path, who
-Init == path \in Paths /\ who \in Sides
+Init == path \in {p \in Paths : Via = "capture" \/ ~HasClo(p)} /\ who \in Sides
 Next == FALSE /\ UNCHANGED <<path, who>>
-Case == [id |-> "deep_" \o Code(path) \o "_" \o who, path |-> path, files |-> ("main.abra" :> Text(path, who)),
+Case == [id |-> (IF Via = "send" THEN "sent_" ELSE "deep_") \o Code(path) \o "_" \o who, path |-> path, files |-> ("main.abra" :> Text(path, who)),
          expect |-> [status |-> "done",
                      out |-> "main " \o ArrS(Final(who, "main")) \o "\ntask " \o ArrS(Final(who, "task")) \o "\n"]]
 Emit == PrintT(<<"CASE", ToJson(Case)>>)
